@@ -216,7 +216,7 @@ class Mon:
             return
         self.see(a)
         self.true[id(a)] += n
-        if self.loop in ("off", "ma_off") and self.memory is not None:
+        if (self.loop in ("off", "ma_off", "bandit") and self.memory is not None) or self.loop in ("on", "ma_on"):
             self.guard(self._learn_progress, a, n)
 
     def _learn_progress(self, a, n):
@@ -224,9 +224,15 @@ class Mon:
         delay is over) already BEFORE this step, the documented learning frequency (every learn_step environment steps; several
         updates per vector step when there are more sub-environments than that) leaves at most max(learn_step, num_envs)
         environment steps between two learn() calls of the acting agent. Twice that plus one vector step is allowed."""
-        have = len(self.memory)
         ls = int(getattr(a, "learn_step", 1))
-        if have >= int(getattr(a, "batch_size", 1)) + n and have > self.learning_delay + n:
+        if self.loop in ("on", "ma_on"):
+            # on-policy: a rollout of ceil(learn_step / num_envs) vector steps, then learn(); nothing to wait for
+            have = None
+            ready = True
+        else:
+            have = len(self.memory)
+            ready = have >= int(getattr(a, "batch_size", 1)) + n and have > self.learning_delay + n
+        if ready:
             self.starved[id(a)] = self.starved.get(id(a), 0) + n
             self.rec.hit("learn_progress_checks")
             if self.starved[id(a)] > 2 * max(ls, n) + n and not self.starvation_reported:
